@@ -8,6 +8,7 @@ body therefore is the VC generator (SymCtx) and the run-time contract check (Con
 from __future__ import annotations
 
 import contextlib
+import os
 import importlib
 import inspect
 import sys
@@ -72,6 +73,7 @@ class API:
         closure: name of a nested def/lambda (closure unit) instantiated with `cells`."""
         mod = load_repo_module(modname)
         real = rewrite.get_function(mod, qualname)
+        real = getattr(real, "__pyvc_original__", real)
         loops = loops or {}
         u = self.__dict__.setdefault("rewrite_log", [])
         if not self.symbolic:
@@ -79,6 +81,11 @@ class API:
                 f, _ = rewrite.instantiate_closure_plain(real, closure, cells)
                 return f
             return real
+        routed = self.__dict__.setdefault("_routed", {})
+        if modname not in routed:
+            routed[modname] = rewrite.route_module(mod)
+            real = rewrite.get_function(mod, qualname)
+            real = getattr(real, "_pyvc_original__", real)
         old = self.ghost.setdefault("old", {})
         hooks = rewrite.make_hooks(self, self.unit, loops, old)
         g = real.__globals__
@@ -137,10 +144,21 @@ class API:
         """raises(only=allowed): an exit by any other exception must be infeasible."""
         if out.raised and not isinstance(out.exc, allowed):
             site = _site(out.exc)
+            if site == "?":
+                # no frame of /repo in the traceback: raised by the harness / a proxy, not by the code under proof
+                raise core.Unsupported("exception outside /repo code: %s: %s" % (type(out.exc).__name__, str(out.exc)[:120]))
+            if os.environ.get("PYVC_DEBUG") and self.symbolic:
+                import traceback
+                traceback.print_exception(out.exc)
             self.ghost["last_exc"] = "%s: %s @%s" % (type(out.exc).__name__, str(out.exc)[:80], site)
             self.infeasible("%sraises-only/%s@%s" % (label, type(out.exc).__name__, site), kind="raises")
             return False
         return True
+
+    def unroute(self):
+        for undo in self.__dict__.get("_routed", {}).values():
+            rewrite.unroute(undo)
+        self.__dict__["_routed"] = {}
 
     def known(self, fid):
         """True when finding `fid` is listed as status=known (witness class is then excluded by
